@@ -15,6 +15,8 @@ mcMatchers ==
     M("any", "Any", "n.x", "\"x\"", TRUE, "", FALSE),
     M("any", "Any", "n.xy", "\"x\"", TRUE, "", FALSE),
     M("any", "Any", "b", "12345", TRUE, "", FALSE),
+    M("any", "Any", "a", "{\"k\":\"v\"}", TRUE, "", FALSE),
+    M("any", "Any", "n.x", "{\"k\":\"v\"}", TRUE, "", FALSE),
     M("any", "Any", "a", "\"q\\\"uo\"", TRUE, "", FALSE),
     M("any", "Any", "b", "\"<Any value>\"", FALSE, "", FALSE),
     M("any", "Any", "l.0", "null", TRUE, "", FALSE),
